@@ -232,17 +232,18 @@ inline int tmpfd()
 }
 
 // Process-global state the library does not own (DESIGN.md section 16, sixth wave). With HZ_DIRTY_ENV set the harness raises
-// every sticky floating-point exception flag and sets errno = ERANGE right before each request body: a library that READS that
+// every sticky floating-point exception flag and sets errno = ERANGE or EDOM (by a hash of the request id) right before each request body: a library that READS that
 // state answers differently from the clean run (check.py compares the two runs bitwise). After each body the rounding mode, the
 // formatting state of std::cout/std::cerr and the global locale must be what they were: a library that LEAVES them changed is
 // reported as " env-changed:<what>" behind the observation.
 extern bool g_dirty_env;
+extern int g_dirty_errno;	// ERANGE or EDOM, chosen per request from a hash of its id (seventh wave: stale EDOM as well as ERANGE)
 inline void env_dirty()
 {
 	if(g_dirty_env)
 	{
 		feraiseexcept(FE_ALL_EXCEPT);
-		errno = ERANGE;
+		errno = g_dirty_errno;
 	}
 }
 struct EnvSnapshot
@@ -399,6 +400,7 @@ int g_fork_timeout_s = 20;
 long g_forks = 0, g_asan = 0, g_signals = 0;
 bool g_fork_all = false;
 bool g_dirty_env = false;
+int g_dirty_errno = ERANGE;
 }	// namespace hz
 
 int main(int argc, char** argv)
@@ -426,6 +428,13 @@ int main(int argc, char** argv)
 		if(a.t.empty())
 			continue;
 		std::string id = a.t[0];
+		{
+			// the stale errno of the dirty run: a pseudo-random half of the requests sees ERANGE, the other half EDOM
+			unsigned long h = 1469598103934665603UL;
+			for(char ch : id)
+				h = (h ^ (unsigned char) ch) * 1099511628211UL;
+			g_dirty_errno = ((h >> 17) & 1) ? EDOM : ERANGE;
+		}
 		if(a.t.size() < 2)
 		{
 			emit(id + " bad-op");
